@@ -386,7 +386,7 @@ func gen(r *core.PRNG, tier string) any {
 		n = r.Range(1, 2)
 		if r.Chance(1, 2) {
 			p.Signers = r.Range(2, 5)
-			p.AggF = []string{"", "drop", "dup", "swapmsg", "samemsg-ok"}[r.Intn(5)]
+			p.AggF = []string{"", "drop", "dup", "swapmsg", "samemsg-ok", "agg-extended", "share-extended"}[r.Intn(7)]
 		}
 	}
 	for i := 0; i < n; i++ {
@@ -890,6 +890,27 @@ func execAgg[K bls.KeyGroup](p *Plan, run *core.Run, comp string) {
 		vs = append(vs, vs[0])
 	case "swapmsg": // shares attributed to the wrong messages
 		vm[0], vm[1] = vm[1], vm[0]
+	case "agg-extended", "share-extended":
+		// bytes appended in transit to the aggregate (or to one share before aggregation):
+		// not the advertised size, refused like Verify refuses an extended signature
+		run.Fault("transport:aggregate-" + p.AggF)
+		run.T("agg", p.AggF)
+		tail := core.NewPRNG(p.KeySeed + 5).Bytes(1 + int(p.KeySeed%3)*47)
+		if p.AggF == "agg-extended" {
+			long := append(append([]byte{}, agg...), tail...)
+			ok := false
+			if pan, v, st := core.Try(func() { ok = bls.VerifyAggregate(pubs, msgs, long) }); pan {
+				run.Violate(comp+".VerifyAggregate", core.PanicClass(v), "%s at %s", v, st)
+			} else if ok {
+				run.Violate(comp+".VerifyAggregate", "accepts-signature-with-appended-bytes", "aggregate of %d bytes followed by %d more verifies", len(agg), len(tail))
+			}
+			return
+		}
+		vs[0] = append(append([]byte{}, vs[0]...), tail...)
+		if out, err := bls.Aggregate(k, vs); err == nil {
+			run.Violate(comp+".Aggregate", "accepts-signature-with-appended-bytes", "a share of %d bytes followed by %d more is aggregated (result equals the honest aggregate: %v)", len(sigs[0]), len(tail), bytes.Equal(out, agg))
+		}
+		return
 	default:
 		run.Bad("aggfault")
 		return
